@@ -479,11 +479,22 @@ func ruleAMR(r *Run) {
 		return
 	}
 	ent := a.entrySites(W)
-	if len(ent) != 1 || ent[0].Parent() != fn {
-		a.bad("A1", "worker-entry-sites", S, fmt.Sprintf("the worker literal is entered from %d sites; exactly one spawn in the helper body is required", len(ent)))
+	// the spawn sits in the helper's body, or in the body of a literal that a library iterator
+	// calls once per element of payload (lo.ForEach(payload, func(item, i) { go … }))
+	var iter *itemIterator
+	if len(ent) == 1 && ent[0].Parent() != fn {
+		iter = a.itemIteratorOf(ent[0])
+	}
+	if len(ent) != 1 || (ent[0].Parent() != fn && iter == nil) {
+		a.bad("A1", "worker-entry-sites", S, fmt.Sprintf("the worker literal is entered from %d sites; exactly one spawn in the helper body (or in the callback of a per-element iterator over payload) is required", len(ent)))
 		return
 	}
 	G = ent[0]
+	// Gtop: the instruction of the helper's own body that stands for "the workers are started"
+	var Gtop ssa.Instruction = G
+	if iter != nil {
+		Gtop = iter.call
+	}
 	if _, isGo := G.(*ssa.Go); !isGo {
 		// a synchronous call is still map-once; accept but note
 		r.Notes = append(r.Notes, "worker is invoked synchronously (not with go)")
@@ -496,8 +507,28 @@ func ruleAMR(r *Run) {
 		a.ok("A1", "mapFunc-call", S, "single call site, on every entry→exit path of the worker, not in a cycle")
 	}
 	// the spawn must be executed exactly once per element of payload
-	loop := loopBlocks(G.Block())
-	lp := a.payloadLoop(G, loop)
+	var loop map[*ssa.BasicBlock]bool
+	var lp *payloadLoop
+	if iter != nil {
+		loop = map[*ssa.BasicBlock]bool{}
+		lp = &payloadLoop{header: iter.call.Block(), iter: iter}
+		if blockInCycle(iter.call.Block()) {
+			a.bad("A1", "iterator-in-loop", iter.call, "the per-element iterator over payload is itself called in a loop: several workers per item")
+			return
+		}
+		if blockInCycle(G.Block()) {
+			a.bad("A1", "spawn-in-inner-loop", G, "the worker spawn lies in a loop inside the iterator callback: several workers per item")
+			return
+		}
+		if okp, at := mustPass(iter.lit.Blocks[0], 0, func(i ssa.Instruction) bool { return i == ssa.Instruction(G) }); !okp {
+			a.bad("A1", "spawn-skipped", at, "a path through the iterator callback returns without spawning the worker: an item is never mapped and Wait never returns")
+			return
+		}
+		a.ok("A1", "payload-loop", iter.call, "worker spawned exactly once per element: the spawn is on every path of the callback that "+iter.name+" calls once for every element of payload")
+	} else {
+		loop = loopBlocks(G.Block())
+		lp = a.payloadLoop(G, loop)
+	}
 	if lp == nil {
 		return
 	}
@@ -655,7 +686,7 @@ func ruleAMR(r *Run) {
 		a.bad("A3", "reducer-spawned-in-loop", Gr, "the reducer is spawned inside a loop: several reducers would run concurrently")
 		return
 	}
-	a.setPre(G, Gr)
+	a.setPre(Gtop, Gr)
 	if _, isGo := Gr.(*ssa.Go); !isGo {
 		a.bad("A3", "reducer-not-goroutine", Gr, "the reducer is not started with go: the caller would block before Wait")
 		return
@@ -999,7 +1030,7 @@ func ruleAMR(r *Run) {
 	}
 
 	// ---- A5: count ----------------------------------------------------------------------
-	a.checkAdd(wgAdd, wgCell, G, Gr, loop)
+	a.checkAdd(wgAdd, wgCell, Gtop, Gr, loop)
 
 	// ---- A6: join -----------------------------------------------------------------------
 	wait := wgWait[0]
@@ -1022,7 +1053,7 @@ func ruleAMR(r *Run) {
 		a.bad("A6", "wait-in-loop", wait, "wg.Wait() is inside the spawning loop")
 		okJoin = false
 	}
-	if !lp.header.Dominates(wait.Block()) {
+	if !lp.header.Dominates(wait.Block()) || (lp.iter != nil && !instrDominates(lp.iter.call, wait)) {
 		a.bad("A6", "wait-before-spawn", wait, "wg.Wait() is not ordered after the spawning loop")
 		okJoin = false
 	}
@@ -1131,7 +1162,76 @@ func mustPassUntil(from, until *ssa.BasicBlock, pred func(ssa.Instruction) bool)
 
 type payloadLoop struct {
 	header *ssa.BasicBlock
-	index  ssa.Value // the value that is the element index inside the body
+	index  ssa.Value     // the value that is the element index inside the body
+	iter   *itemIterator // set when the loop is a library iterator calling a literal per element
+}
+
+// itemIterator: a call, in the helper's body, of a library function that calls its function
+// argument synchronously exactly once for every element of its slice argument, passing the
+// element (and its index).
+type itemIterator struct {
+	call ssa.CallInstruction
+	lit  *ssa.Function // the callback literal
+	name string
+	elem *ssa.Parameter // the callback's element parameter
+	idx  *ssa.Parameter // the callback's index parameter (may be nil)
+}
+
+// perItemIterators: qualified name → positions of (slice, callback) arguments and of the
+// (element, index) parameters of the callback. lo.ForEach is `for i, item := range collection
+// { iteratee(item, i) }` (samber/lo slice.go).
+var perItemIterators = map[string][4]int{
+	"github.com/samber/lo.ForEach": {0, 1, 0, 1},
+}
+
+// itemIteratorOf: site lies in a literal whose only use is as the callback of a per-element
+// iterator called by the helper's body on payload.
+func (a *amr) itemIteratorOf(site ssa.CallInstruction) *itemIterator {
+	lit := site.Parent()
+	if lit == nil || lit.Parent() != a.fn {
+		return nil
+	}
+	var found *itemIterator
+	uses := 0
+	for _, ins := range allInstrs(a.fn) {
+		mc, ok := ins.(*ssa.MakeClosure)
+		if !ok || mc.Fn != ssa.Value(lit) {
+			continue
+		}
+		for _, ref := range *mc.Referrers() {
+			uses++
+			call, ok := ref.(*ssa.Call)
+			if !ok {
+				continue
+			}
+			sc := call.Call.StaticCallee()
+			if sc == nil {
+				continue
+			}
+			name := extName(sc)
+			pos, known := perItemIterators[name]
+			if !known || len(call.Call.Args) <= pos[0] || len(call.Call.Args) <= pos[1] {
+				continue
+			}
+			if unwrap(call.Call.Args[pos[1]]) != ssa.Value(mc) || !a.isParam(call.Call.Args[pos[0]], a.payload) {
+				continue
+			}
+			it := &itemIterator{call: call, lit: lit, name: name}
+			if pos[2] < len(lit.Params) {
+				it.elem = lit.Params[pos[2]]
+			}
+			if pos[3] < len(lit.Params) {
+				it.idx = lit.Params[pos[3]]
+			}
+			if it.elem != nil {
+				found = it
+			}
+		}
+	}
+	if uses != 1 {
+		return nil
+	}
+	return found
 }
 
 // payloadLoop checks that the spawn G is executed exactly once for every index of payload.
@@ -1291,6 +1391,33 @@ func (a *amr) checkItemArg(S, G ssa.CallInstruction, lp *payloadLoop, loop map[*
 	var isItemTop func(v ssa.Value) (bool, string)
 	isItemTop = func(v ssa.Value) (bool, string) {
 		v = unwrap(v)
+		if it := lp.iter; it != nil {
+			if v == ssa.Value(it.elem) {
+				return true, "the element the iterator passes to its callback"
+			}
+			if ld, ok := v.(*ssa.UnOp); ok && ld.Op == token.MUL {
+				if ia, ok := ld.X.(*ssa.IndexAddr); ok {
+					if a.isParam(ia.X, a.payload) && it.idx != nil && unwrap(ia.Index) == ssa.Value(it.idx) {
+						return true, "payload[index the iterator passes to its callback]"
+					}
+					return false, "indexes something other than payload[callback index]"
+				}
+				// the callback's own (spilled) parameter or a local copy: one per invocation
+				if al, ok := a.cell(ld.X).(*ssa.Alloc); ok && al.Parent() == it.lit {
+					sts := storesTo(al)
+					if len(sts) == 0 {
+						return false, "reads a variable that is never assigned"
+					}
+					for _, st := range sts {
+						if ok, why := isItemTop(st.Val); !ok {
+							return false, why
+						}
+					}
+					return true, "per-invocation variable of the iterator callback holding the element"
+				}
+			}
+			return false, "is not the element the iterator passes to its callback"
+		}
 		if ld, ok := v.(*ssa.UnOp); ok && ld.Op == token.MUL {
 			if ia, ok := ld.X.(*ssa.IndexAddr); ok {
 				if a.isParam(ia.X, a.payload) && ia.Index == lp.index {
@@ -1332,7 +1459,7 @@ func (a *amr) checkItemArg(S, G ssa.CallInstruction, lp *payloadLoop, loop map[*
 				if a.isParam(ia.X, a.payload) {
 					if p, ok := ia.Index.(*ssa.Parameter); ok && p.Parent() == S.Parent() {
 						gi := paramIndex(p)
-						if gi < len(G.Common().Args) && G.Common().Args[gi] == lp.index {
+						if gi < len(G.Common().Args) && ((lp.index != nil && G.Common().Args[gi] == lp.index) || (lp.iter != nil && lp.iter.idx != nil && unwrap(G.Common().Args[gi]) == ssa.Value(lp.iter.idx))) {
 							a.ok("A1c", "item-argument", S, "payload[i] with i passed to the worker at the spawn")
 							return
 						}
@@ -1340,6 +1467,14 @@ func (a *amr) checkItemArg(S, G ssa.CallInstruction, lp *payloadLoop, loop map[*
 				}
 			}
 			cell := a.cell(x.X)
+			if al, ok := cell.(*ssa.Alloc); ok && lp.iter != nil && al.Parent() == lp.iter.lit {
+				if ok, why := isItemTop(x); ok {
+					a.ok("A1c", "item-argument", S, why)
+				} else {
+					a.bad("A1c", "item-argument", S, "the value the worker maps "+why+": items can be mapped twice or not at all")
+				}
+				return
+			}
 			if al, ok := cell.(*ssa.Alloc); ok && al.Parent() == a.fn {
 				if !loop[al.Block()] {
 					a.bad("A1c", "captured-loop-variable", S, "the worker reads a captured variable that is shared by all iterations of the payload loop (module is go 1.18: one variable per loop): by the time a worker runs the variable may already hold a later item, so some items are mapped twice and others never")
@@ -1380,7 +1515,7 @@ func (a *amr) errsCell() *ssa.Alloc {
 	return out
 }
 
-func (a *amr) checkAdd(adds []ssa.CallInstruction, wgCell ssa.Value, G, Gr ssa.CallInstruction, loop map[*ssa.BasicBlock]bool) {
+func (a *amr) checkAdd(adds []ssa.CallInstruction, wgCell ssa.Value, G ssa.Instruction, Gr ssa.CallInstruction, loop map[*ssa.BasicBlock]bool) {
 	if len(adds) != 1 {
 		var at ssa.Instruction
 		if len(adds) > 0 {
@@ -1412,7 +1547,7 @@ func (a *amr) checkAdd(adds []ssa.CallInstruction, wgCell ssa.Value, G, Gr ssa.C
 		a.bad("A5", "add-count", add, "wg.Add is not called with len(payload): Wait returns early (count too small) or never (too large)")
 		return
 	}
-	if !instrDominates(add, Gr) || !(add.Block().Dominates(G.Block())) {
+	if !instrDominates(add, Gr) || !instrDominates(add, G) {
 		a.bad("A5", "add-after-spawn", add, "wg.Add does not precede the spawns")
 		return
 	}
